@@ -102,7 +102,8 @@ def cases(spec, ctx):
         form = rng.choice(["entity", "entity", "direct"])
         yield {"k": "rand", "world": world, "kind": kind, "cond": cond, "form": form,
                "how": rng.choice(["let", "let", "from"]), "quant": rng.choice(["an", "an", "a"]),
-               "split": rng.random() < 0.3, "times": rng.choice([1, 2, 3]), "caching": rng.random() < 0.8}
+               "split": rng.random() < 0.3, "times": rng.choice([1, 2, 3]), "caching": rng.random() < 0.8,
+               "take_first": rng.choice([0, 0, 0, 1, 2])}
 
 
 def check_case(case, ctx):
@@ -122,10 +123,12 @@ def check_case(case, ctx):
         ctx.nontrivial()
     times = case.get("times", 2)
     ctx.cls(f"evaluations_of_the_same_query:{times}")
+    if case.get("take_first"):
+        ctx.cls("preceded_by_an_abandoned_evaluation")
     try:
         gots = H.run_an(world, [kind], cond, [0], form=case.get("form", "entity"), how=case.get("how", "let"),
                         quant=case.get("quant", "an"), split_top_and=case.get("split", False), times=times,
-                        caching=case.get("caching", True))
+                        caching=case.get("caching", True), take_first=case.get("take_first", 0))
     except Exception as e:
         ctx.fail("EXC", f"{type(e).__name__}: {e}", expected=exp)
         return
